@@ -47,6 +47,9 @@ def walk_expr(e: ast.AST, into_lambdas: bool = False) -> Iterator[ast.AST]:
         stack.extend(ast.iter_child_nodes(n))
 
 
+_CALLEE_CACHE: Dict[int, Dict] = {}
+
+
 @dataclass
 class Escape:
     cls: str  # qualified repo class name or builtin name or 'ext:<dotted>'
@@ -55,8 +58,12 @@ class Escape:
 
 
 class ExcFlow:
-    def __init__(self, prog: Program, lambda_policy=None):
+    def __init__(self, prog: Program, lambda_policy=None, site_filter=None):
+        """site_filter(fi, si, kind, payload, callee) -> None (keep) | 'skip' (the site
+        contributes nothing) | an ExcFlow instance whose escape set for the callee is used
+        instead of this one's (context: validated receiver)."""
         self.prog = prog
+        self.site_filter = site_filter
         self.esc: Dict[str, Dict[Tuple[str, str], Tuple[str, ...]]] = {}
         # function qualname -> {(class, origin-site-key): chain}
         self.lambda_policy = lambda_policy or default_lambda_policy
@@ -165,6 +172,13 @@ class ExcFlow:
             self.sites[fi.qualname] = sites
 
     def callees(self, fi: FuncInfo, kind: str, node) -> List[FuncInfo]:
+        key = (id(node), kind)
+        cache = _CALLEE_CACHE.setdefault(id(self.prog), {})
+        if key not in cache:
+            cache[key] = self._callees(fi, kind, node)
+        return cache[key]
+
+    def _callees(self, fi: FuncInfo, kind: str, node) -> List[FuncInfo]:
         out: List[FuncInfo] = []
         if kind == "call":
             for t in self.prog.resolve_call_target(fi, node):
@@ -241,7 +255,14 @@ class ExcFlow:
                                 changed = True
                     else:
                         for cal in self.callees(fi, kind, payload):
-                            for (cls, origin), chain in list(esc[cal.qualname].items()):
+                            src = esc
+                            if self.site_filter is not None:
+                                r = self.site_filter(fi, si, kind, payload, cal)
+                                if r == "skip":
+                                    continue
+                                if r is not None:
+                                    src = r.esc
+                            for (cls, origin), chain in list(src[cal.qualname].items()):
                                 if self.caught_by(fi, si, cls) is not None:
                                     continue
                                 key = (cls, origin)
